@@ -51,6 +51,7 @@ function reference(job, x, y) {
       return split(sg, X >> BigInt(y[1]));      // BigInt >> is arithmetic; X >= 0 for unsigned
     }
     case 'ctor': return split(sg, BigInt(y[0]) * M32 + BigInt(y[1]));
+    case 'flatten': return Number(X);           // float64(v): the correctly rounded double of the exact integer
     case 'ctorreal': {                          // Go: conversion truncates toward zero
       const n = BigInt(y[0]), d = BigInt(y[1]);
       return split(sg, n / d);
@@ -72,6 +73,7 @@ function implementation(job, x, y) {
       case 'ushr': r = H.ushr(new C(x[0], x[1]), y[1]); break;
       case 'ctor': r = new C(y[0], y[1]); break;
       case 'ctorreal': r = new C(0, y[0] / y[1]); break;
+      case 'flatten': { const f = H.flatten(new C(x[0], x[1])); return Object.is(f, -0) ? '-0' : f; }
     }
     return [r.$high, r.$low];
   } catch (e) {
